@@ -20,7 +20,7 @@ RULE = (
     "(permutations, all-equal, reversed) and a short operation history. Relations on the complete log dump, "
     "exact: R1 rebuild at other addresses (plain pDESy classes, junk allocated in between); R2 two runs with "
     "harness-controlled hash values of tasks/components (iteration order of the library's internal sets); "
-    "R3 simulate again on the same object, also after backward_simulate / initialize / insert+remove absence / "
+    "R3 simulate again on the same object, also after backward_simulate (with and without considering_due_time_of_tail_tasks) / initialize / insert+remove absence / "
     "simulate() with default arguments, and a fresh project simulated with default arguments afterwards (no "
     "hidden state); R4 (thorough) the same batch of specs simulated in child processes with other "
     "PYTHONHASHSEED values. Non-trivial = the reference run has two FF/SF-linked tasks whose finish checks fall "
@@ -38,7 +38,7 @@ LEVEL_TEXT = (
 )
 LEVEL_NOTE = "Trusts the dump (all per-step logs, time, costs, status) and the hash-controlled subclasses."
 
-CFG = gen.Cfg(onesided=4, servable=3, 
+CFG = gen.Cfg(onesided=4, servable=3, due=True, 
     facilities=True,
     kinds=[0, 0, 1, 2, 2, 3, 3],
     tie_rich=2,
@@ -47,9 +47,11 @@ CFG = gen.Cfg(onesided=4, servable=3,
     inputs=False,
     chain_components=True,
 )
-CFG_N = CFG.copy(nested="assembly")
+# nested products only without workplaces here: backward_simulate reverses the dependencies, which turns the
+# assembly form around (parent tasks first) and leads into the nested-placement findings D-PLC2..4 of C13
+CFG_N = CFG.copy(nested="free", max_wps=0)
 
-OPS = ["sim", "sim_default", "backward", "init", "insert_remove", "resim"]
+OPS = ["sim", "sim_default", "backward", "backward_due", "backward_due", "init", "insert_remove", "resim"]
 
 
 @st.composite
@@ -174,6 +176,8 @@ def check(case):
                 p.simulate(max_time=spec["opts"]["max_time"])
         elif op == "backward":
             S.backward_simulate(p, spec["opts"])
+        elif op == "backward_due":
+            S.backward_simulate(p, spec["opts"], considering_due_time_of_tail_tasks=True)
         elif op == "init":
             p.initialize()
         elif op == "insert_remove":
